@@ -183,7 +183,7 @@ class Built:
             values = self.sc.get("streams", [])
             if e[1] >= len(values):
                 raise BuildError("no stream")
-            return eworld.stream(1000 + e[1], values[e[1]])
+            return eworld.one_shot(e[2] if len(e) > 2 else "gen", 1000 + e[1], values[e[1]])
         if tag == "shared":
             k = e[1]
             if k not in self.shared:
